@@ -64,7 +64,7 @@ def breakers(rnd, m):
         nb = body[:-1] if rnd.random() < 0.5 and len(body) > 2 else body + ["1"]
         out.append(("transition-list-length", text[:mm.start(1)] + "|" + " ".join(nb) + "|" + text[mm.end(1):]))
     # text after a mixture specifier (molecule level)
-    out.append(("text-after-mixture", text + ".|50%|CC"))
+    out.append(("text-after-mixture", text + ".|50%|" + rnd.choice(["CC", "C", "O ", "F\n", "[H]", " C", "C\t", "N"])))
     out.append(("percentage-out-of-range", text + ".|%s%%|" % rnd.choice(["101", "-3", "250.5"])))
     out.append(("negative-absolute-mass", text + ".|-%s|" % rnd.choice(["5", "1e3", "0.5"])))
     return out
